@@ -144,6 +144,45 @@ def Act.ofProd (p : Nat) : Act → Bool
 def accepted (s : State) : List Item := (s.events.filter (·.accepted)).map (·.item)
 def dropped (s : State) : List Item := (s.events.filter (fun e => !e.accepted)).map (·.item)
 
+/-! ### the payload as a REFERENCE into a byte buffer
+
+What travels through the channel is `buffer.Bytes()`: a slice that aliases the buffer `Handle` formatted into, read by
+the sink only when the delivery goroutine gets to it — after `Handle` has long returned.  The record is whole at the
+sink only if nobody writes to that buffer in between.  `BState` adds the buffers to the protocol: `fmt` writes the
+line into a buffer, the item refers to the buffer by key, and `finish` hands the sink what the buffer holds AT THAT
+MOMENT (`sunk`).  Under the policy of the code (`fresh`: `var buffer bytes.Buffer`, one per call, never written again)
+the bytes the sink gets are the formatted line; under the contrast policy (`pooled`: one buffer per goroutine, reset
+and reused by the next call) a queued record is overwritten by the next one. -/
+
+inductive Policy where
+  | fresh | pooled
+deriving BEq, DecidableEq, Repr
+
+def bufKey (pol : Policy) (x : Item) : Nat × Nat :=
+  match pol with
+  | .fresh => (x.pid, x.idx)
+  | .pooled => (x.pid, 0)
+
+structure BState where
+  s : State
+  bufs : List ((Nat × Nat) × Bytes) := []    -- buffer key ↦ current content
+  sunk : List Bytes := []                     -- what the sink's `Write` calls actually received
+
+def stepB (cfg : Config) (pol : Policy) (b : BState) (a : Act) : BState :=
+  match a with
+  | .fmt p =>
+    match (b.s.prods[p]?).bind (·.pending), ((step cfg b.s a).prods[p]?).bind (·.pending) with
+    | none, some x => -- a record was formatted: its bytes now sit in the buffer
+      { b with s := step cfg b.s a, bufs := (bufKey pol x, x.line) :: b.bufs.filter (·.1 != bufKey pol x) }
+    | _, _ => { b with s := step cfg b.s a }
+  | .finish _ =>
+    match b.s.cons with
+    | .writing x => { b with s := step cfg b.s a, sunk := b.sunk ++ [(b.bufs.lookup (bufKey pol x)).getD []] }
+    | _ => { b with s := step cfg b.s a }
+  | _ => { b with s := step cfg b.s a }
+
+def runB (cfg : Config) (pol : Policy) (b : BState) (sched : List Act) : BState := sched.foldl (stepB cfg pol) b
+
 /-! ### exploring a SCRIPTED schedule: what the forced-schedule test of the check controls and what it does not
 
 The test scripts the producers (`handle p`: producer `p` makes one whole `Handle` call; `par p q`: two producers make
